@@ -251,6 +251,7 @@ PROPS["C17"] = dict(
 
 # deep-input suites additionally run in the unoptimised dev profile with debug assertions (the profile `cargo test` uses):
 # iterative code that silently becomes recursive, or a debug_assert! that walks a structure, only shows there
+PROPS["C12"]["convertsrc"] = True
 PROPS["C10"]["printsrc"] = True
 PROPS["C11"]["printsrc"] = True
 PROPS["C18"]["termsrc"] = True
@@ -284,3 +285,10 @@ _PRINT_TIE = ("tie (printers): base26_encode, show_precedence_cla, show_preceden
               "outside the translated idiom the last good copy coq/baseline/PrintSrc.v is used and the tie is the correspondence run alone")
 for _k in ("C10", "C11"):
     PROPS[_k]["trusted_base"] = list(PROPS[_k]["trusted_base"]) + [_PRINT_TIE]
+_CONV_TIE = ("tie (numeral constructors): into_church, into_scott, into_parigot, into_stumpfu are REGENERATED from "
+             "src/data/num/convert.rs on every run by the translator lib/trans_convert.py (Gen/ConvertSrc.v; `unwrap` on Err is modelled "
+             "by the inert Var 0 and the tie proof shows that branch is never taken) and proved equal to the model loops "
+             "(Proofs/ConvertSrcTie.v); into_binary ({:b} formatting), into_signed (i32), the container impls and the macros are "
+             "hand-written mirrors; outside the translated idiom the last good copy coq/baseline/ConvertSrc.v is used and the tie is the "
+             "correspondence run alone")
+PROPS["C12"]["trusted_base"] = list(PROPS["C12"]["trusted_base"]) + [_CONV_TIE]
